@@ -4184,6 +4184,7 @@ func (p *Parser) parseKeyValuePairs() []*ast.KeyValuePair {
 	var pairs []*ast.KeyValuePair
 
 	for !p.currentIs(token.EOF) && !p.currentIs(token.RPAREN) {
+		startPos := p.current.Pos
 		pair := &ast.KeyValuePair{
 			Position: p.current.Pos,
 		}
@@ -4220,6 +4221,10 @@ func (p *Parser) parseKeyValuePairs() []*ast.KeyValuePair {
 		}
 
 		pairs = append(pairs, pair)
+		// If we didn't advance, break to avoid infinite loop
+		if p.current.Pos == startPos {
+			break
+		}
 	}
 
 	return pairs
